@@ -224,7 +224,9 @@ func (g *tgen) literal() string {
 	case g.on("braces", 1, 6):
 		s = []string{"{", "}", "a{b", "}}", "x}}y", "{ {", "} }", "{x}", "{#if}", "a } b { c"}[r.Intn(10)]
 	case g.on("hostile-literal", 1, 6):
-		s = []string{"<b>&amp;", "a & b", "\"q\"", "中文 テキスト", "é ü ñ", "tab\there", "  two  spaces  ", "#*_~`|", "100%", "a\\b"}[r.Intn(10)]
+		s = []string{"<b>&amp;", "a & b", "\"q\"", "中文 テキスト", "é ü ñ", "tab\there", "  two  spaces  ", "#*_~`|", "100%", "a\\b",
+			// text that means something to a replacement template or a format string
+			"$100", "$HOME and ${wallet}", "$1 $2", "cost: $0", "\\1", "%s %d %v", "$$", "${1}x", "$name"}[r.Intn(19)]
 	default:
 		s = gen.Word(r, 1, 7)
 		if r.Chance(1, 3) {
